@@ -125,6 +125,10 @@ func (g *G) SPDXClassNode(id string) *sbom.Node {
 	}
 	if on() {
 		n.Originators = []*sbom.Person{{Name: Pick(g, []string{"Origin Org", "John Roe"}), IsOrg: g.Chance(0.5)}}
+		// a second, different originator on some nodes (SPDX keeps the first); decided without a further draw
+		if n.Originators[0].Name == "John Roe" {
+			n.Originators = append(n.Originators, &sbom.Person{Name: "Second Origin", IsOrg: !n.Originators[0].IsOrg, Email: "s@o.rg"})
+		}
 	}
 	return n
 }
